@@ -139,11 +139,14 @@ def tasks_for(tier):
     if tier == 'quick':
         decks = [(base + 0, 1, False, 'disp', 'slab'), (base + 1, 1, True, 'num', 'slab'), (base + 2, 2, False, 'none', 'slab'),
                  (base + 3, 2, False, 'full', 'sphere'), (base + 4, 1, True, 'trcl', 'two'), (base + 5, 2, True, 'disp', 'slab'),
-                 (base + 6, 1, False, 'none', 'slab', True), (base + 7, 1, True, 'disp', 'two', True)]   # with a patently empty filler cell
+                 (base + 6, 1, False, 'none', 'slab', True), (base + 7, 1, True, 'disp', 'two', True),   # with a patently empty filler cell
+                 (base + 8, 1, False, 'disp', 'union'), (base + 9, 1, True, 'full', 'zslab', None, True)]   # union filler; mirrored twin
     else:
         decks = [(base + i, 1 + i % 3 if i % 3 < 2 else 2, i % 2 == 0, c05.SPELL[i % len(c05.SPELL)], ['slab', 'sphere', 'two'][i % 3])
                  for i in range(80)]
         decks += [(base + 100 + i, 1 + i % 2, i % 2 == 0, c05.SPELL[i % len(c05.SPELL)], ['slab', 'sphere', 'two'][i % 3], True) for i in range(16)]
+        decks += [(base + 200 + i, 1 + i % 2, i % 2 == 0, c05.SPELL[i % len(c05.SPELL)], 'union') for i in range(16)]
+        decks += [(base + 300 + i, 1, True, 'full', 'zslab', None, True) for i in range(8)]
     for dt in decks:
         for fl in combos:
             out.append((dt, fl))
